@@ -107,10 +107,14 @@ func checkTree(doc ast.Node, src []byte) []string {
 			if !segOK(v.Segment, n) {
 				bad("Text segment %v outside the source (len %d)", v.Segment, n)
 			} else if lastStart != nil {
-				if v.Segment.Start < *lastStart {
-					bad("Text segment %v comes before an earlier one (start %d) in the same block", v.Segment, *lastStart)
+				// lastStart holds the end of the previous non-empty text segment of the block:
+				// document order means the next one begins at or after it
+				if v.Segment.Start < *lastStart && v.Segment.Start < v.Segment.Stop {
+					bad("Text segment %v begins before the end (%d) of an earlier one in the same block", v.Segment, *lastStart)
 				}
-				*lastStart = v.Segment.Start
+				if v.Segment.Stop > *lastStart && v.Segment.Start < v.Segment.Stop {
+					*lastStart = v.Segment.Stop
+				}
 				if block != nil && block.Lines().Len() > 0 && v.Segment.Start < v.Segment.Stop {
 					in := false
 					ls := block.Lines()
@@ -195,7 +199,7 @@ func runC05(c *Ctx) {
 			}
 			add("nested-inlines", []byte(d))
 		}
-		for _, t := range []string{"[![*[a](/u1)*](/u2)](/u3)", "[![_[a]_](/u2)][a]\n\n[a]: /u1", "- Foo\n--", "|a|\n|-|\n", ">\t# ab", "-\t# ab", "a\n=\n", "[^a] [^b] [^c]\n\n[^a]: 1\n\n[^c]: 3\n\n[^b]: 2\n", "[a]: /u\n===\n", "[![a](b)](c)", "[a [b](c) d](e)", "*a **b* c**", "`a\nb`", "<a\nb>", "t\n: d\n\n  e", "0\n-:\n-", "|a|b|\n|-|-|\n|`c\\|d`|\n", "- [x] a\n  - [ ] b", "~~a *b~~ c*", "> - a\n>   b\n> c", "1. a\n\n   b\n2. c", "\ta\n\tb", "```\n>\t\tx\n```", "[a]:\n/u\n't'\nb"} {
+		for _, t := range []string{"![^u]\n\n[^1]: n\n", "a ![^x] b [^1]\n\n[^1]: d\n", "![^1]\n\n[^1]: d\n", "[^u] ![^u]\n\n[^v]: d\n", "[![*[a](/u1)*](/u2)](/u3)", "[![_[a]_](/u2)][a]\n\n[a]: /u1", "- Foo\n--", "|a|\n|-|\n", ">\t# ab", "-\t# ab", "a\n=\n", "[^a] [^b] [^c]\n\n[^a]: 1\n\n[^c]: 3\n\n[^b]: 2\n", "[a]: /u\n===\n", "[![a](b)](c)", "[a [b](c) d](e)", "*a **b* c**", "`a\nb`", "<a\nb>", "t\n: d\n\n  e", "0\n-:\n-", "|a|b|\n|-|-|\n|`c\\|d`|\n", "- [x] a\n  - [ ] b", "~~a *b~~ c*", "> - a\n>   b\n> c", "1. a\n\n   b\n2. c", "\ta\n\tb", "```\n>\t\tx\n```", "[a]:\n/u\n't'\nb"} {
 			add("targeted", []byte(t))
 		}
 	})
